@@ -990,12 +990,7 @@ impl Formatter {
       {}
     </div>",id, citation_num, citation_body)
     } else {
-      let citation_text = match parsed_citation {
-        Ok((citation_text, Some(link))) => format!("{} {}", citation_text, link),
-        Ok((citation_text, None)) => citation_text,
-        Err(err) => format!("ERROR: {}", err.display_message()),
-      };
-      format!("[{}]: {}",node.id.to_string(), citation_text)
+      format!("[{}]: {}",node.id.to_string(), self.inline_paragraph(&node.text))
     };
     if self.html {
       self.citations[citation_num - 1] = formatted_citation;
